@@ -60,6 +60,10 @@ func c05Row(family string, n int) func(i int) model.Row {
 			}
 			return r
 		}
+	case "bigval": // values that hold for far more than 4096 rows (contiguous, alternating, and all rows), n rows
+		return func(i int) model.Row {
+			return model.Row{"all": "1", "par": strconv.Itoa(i % 2), "half": strconv.Itoa(i * 2 / n), "id": strconv.Itoa(i)}
+		}
 	case "exact": // exactly n distinct (column,value) pairs in one column: totals that are exact multiples of the batch size
 		return func(i int) model.Row { return model.Row{"v": strconv.Itoa(i)} }
 	case "exact2": // 600 + 400 = exactly 1000 pairs spread over two columns (n must be 1200)
@@ -490,6 +494,7 @@ func c05Run(ctx *rt.Ctx) []*rt.Violation {
 		add(fmt.Sprintf("exact%d", n), c05Args{Family: "exact", N: n}, 1)
 	}
 	add("exact2", c05Args{Family: "exact2", N: 1200}, 1)
+	add("bigval", c05Args{Family: "bigval", N: 9000}, 1)
 	add("multi", c05Args{Family: "multi"}, 1)
 	depth := 5
 	if ctx.Thorough() {
